@@ -2,6 +2,7 @@
 // thread-confined; results are keyed by run index, so the worker count changes nothing).
 
 use crate::gen_alias;
+use crate::gen_dict;
 use crate::gen_fault;
 use crate::rng::{mix3, tag};
 use crate::run::*;
@@ -25,6 +26,14 @@ pub fn generate(profile: &str, seed: u64, index: u64) -> Generated {
     match profile {
         "alias" => {
             let o = gen_alias::generate(seed, fault_free);
+            Generated {
+                script: o.script,
+                kinds: o.kinds,
+                nontrivial: o.nontrivial,
+            }
+        }
+        "dict" => {
+            let o = gen_dict::generate(seed, fault_free);
             Generated {
                 script: o.script,
                 kinds: o.kinds,
@@ -345,6 +354,7 @@ pub fn profiles_for(property: &str, tier: &str) -> Vec<(&'static str, u64)> {
     let nb = gen_fault::global_names().len() as u64;
     match property {
         "C01" => vec![("alias", if thorough { 3_000_000 } else { 200_000 })],
+        "C09" => vec![("dict", if thorough { 3_000_000 } else { 200_000 })],
         "C14" => {
             if thorough {
                 vec![
